@@ -7,7 +7,7 @@ Every random choice comes from one SplitMix64 state, so a trace is reproducible 
   own    operation whose (projected) output the property under check speaks about
 """
 
-GEN_VERSION = 8
+GEN_VERSION = 10
 
 MASK64 = (1 << 64) - 1
 
@@ -302,6 +302,9 @@ def ops_C02(t, reg):
 
 def ops_C03(t, reg):
     r = t.rng
+    if r.chance(3):
+        t.emit("defaults", "own")
+        return
     if reg == "S":
         op = r.pick(["iter", "ref_iter", "into_iter", "keys", "iter_fused", "iter_clone %d" % r.below(6)])
     else:
@@ -576,6 +579,36 @@ def gen_C17(t, n):
             t.emit("pfx zero", "own")
         else:
             t.emit("pfx tor %s %s" % (u.fmt(a), u.fmt(b)), "own")
+
+
+def c17_exhaustive(full, nshards):
+    """width 8: every (address, length) prefix (host bits included) - `bits` for each; `pair` for every ordered
+    pair (full) or for 24 partners per prefix chosen by a fixed stride (sample)"""
+    allp = [(addr, ln) for ln in range(9) for addr in range(256)]
+    fmt = lambda p: "%02x/%d" % p
+    shards = [[] for _ in range(nshards)]
+    n = 0
+    for a in allp:
+        shards[n % nshards].append(("pfx bits %s" % fmt(a), "own"))
+        n += 1
+    if full:
+        for i, a in enumerate(allp):
+            sh = shards[i % nshards]
+            for b in allp:
+                sh.append(("pfx pair %s %s" % (fmt(a), fmt(b)), "own"))
+    else:
+        m = len(allp)
+        for i, a in enumerate(allp):
+            sh = shards[i % nshards]
+            for j in range(24):
+                b = allp[(i * 7 + j * 97 + (j * j * 13)) % m]
+                sh.append(("pfx pair %s %s" % (fmt(a), fmt(b)), "own"))
+            # the prefixes most closely related to `a`: itself with other host bits, parent, children
+            addr, ln = a
+            rel = [(addr ^ 1, ln), (addr, max(ln - 1, 0)), (addr, min(ln + 1, 8)), (addr ^ 0x80, ln), (0, 0), (addr, 8)]
+            for b in rel:
+                sh.append(("pfx pair %s %s" % (fmt(a), fmt(b)), "own"))
+    return [sh for sh in shards if sh]
 
 
 def gen_C18(t, n):
